@@ -1,0 +1,19 @@
+//go:build verif
+
+// Contracts for package type_msm7/message, checked by /verif/govc (see /verif/DESIGN.md).
+// This file contains only comments; it is compiled only with -tags verif and
+// has no effect on the package.
+
+package message
+
+//@ func GetMessage
+//@ ensures r1 == nil ==> r0 != nil && fresh(r0) && r0.Header != nil && HeaderWF(r0.Header) && len(r0.Satellites) == len(r0.Header.Satellites) && len(r0.Signals) == len(r0.Header.Satellites)
+//@ ensures r1 == nil ==> forall(k, 0, len(r0.Signals), forall(l, 0, len(r0.Signals[k]), r0.Signals[k][l].Satellite != nil))
+//@ ensures r1 != nil ==> r0 == nil
+//@ ensures[C20] !isMSM7(bits(bitStream, 24, 12)) ==> r1 != nil
+//@ ensures[C20] r1 == nil ==> r0.Header.MessageType == bits(bitStream, 24, 12)
+
+//@ func (*Message).String
+//@ requires[C07] message != nil && message.Header != nil
+//@ requires[C07] forall(k, 0, len(message.Signals), forall(l, 0, len(message.Signals[k]), message.Signals[k][l].Satellite != nil))
+//@ arith wrap
